@@ -17,10 +17,29 @@ package spine
 // ---------------------------------------------------------------------------------------
 // event bus (caller view; the body is verified against a stronger contract under C15)
 
-//@ func (*events).Publish trusted
+// caller view of Publish (used at call sites); the delivery semantics are proved on (*events).Publish below
+//@ func (*events).Publish
+//@   requires r != nil
+//@   let S = r.handlers
+//@   define isCore(it) = it.Level == api.EventHandlerLevelCore
+//@   define isApp(it) = it.Level == api.EventHandlerLevelApplication
+//@   filter C entry src S keep isCore
+//@   filter A entry src S keep isApp
 //@   ensures evn == old(evn) + 1 && ev == store(old(ev), old(evn), payload)
-//@   modifies evn, ev, world
-
+//@   ensures[C15] sync-count: dn == old(dn) + Ccnt(len(S))
+//@   ensures[C15] sync-each: forall j int :: 0 <= j && j < len(S) && isCore(old(S[j])) ==> dh[old(dn) + Ccnt(j)] == old(S[j].Handler) && dp[old(dn) + Ccnt(j)] == payload && dsp[old(dn) + Ccnt(j)] == old(spawnn)
+//@   ensures[C15] async-count: spawnn == old(spawnn) + Acnt(len(S))
+//@   ensures[C15] async-each: forall j int :: 0 <= j && j < len(S) && isApp(old(S[j])) ==> spawnfn[old(spawnn) + Acnt(j)] == methodid("(github.com/enbility/spine-go/api.EventHandlerInterface).HandleEvent") && spawnarg(old(spawnn) + Acnt(j), 0, api.EventHandlerInterface) == old(S[j].Handler) && spawnarg(old(spawnn) + Acnt(j), 1, api.EventPayload) == payload
+//@   ensures[C15] locks-released: !held(r.mu) && !held(r.muHandle)
+//@   modifies evn, ev, dn, dh, dp, dsp, world, held, r.handlers
+//@   loop 0 invariant o-snap: forall i int :: 0 <= i && i < len(S) ==> handler[i] == old(S[i])
+//@   loop 0 invariant o-len: len(handler) == len(S)
+//@   loop 0 invariant o-levels: len($s) == 2 && $s[0] == api.EventHandlerLevelCore && $s[1] == api.EventHandlerLevelApplication
+//@   loop 0 invariant o-sync: dn == old(dn) + ite($k >= 1, Ccnt(len(S)), 0)
+//@   loop 0 invariant o-sync-each: $k >= 1 ==> forall j int :: 0 <= j && j < len(S) && isCore(old(S[j])) ==> dh[old(dn) + Ccnt(j)] == old(S[j].Handler) && dp[old(dn) + Ccnt(j)] == payload && dsp[old(dn) + Ccnt(j)] == old(spawnn)
+//@   loop 0 invariant o-async: spawnn == old(spawnn) + ite($k >= 2, Acnt(len(S)), 0)
+//@   loop 0 invariant o-async-each: $k >= 2 ==> forall j int :: 0 <= j && j < len(S) && isApp(old(S[j])) ==> spawnfn[old(spawnn) + Acnt(j)] == methodid("(github.com/enbility/spine-go/api.EventHandlerInterface).HandleEvent") && spawnarg(old(spawnn) + Acnt(j), 0, api.EventHandlerInterface) == old(S[j].Handler) && spawnarg(old(spawnn) + Acnt(j), 1, api.EventPayload) == payload
+//@   loop 0 invariant o-held: held(r.muHandle) && !held(r.mu)
 // ---------------------------------------------------------------------------------------
 // binding registry (C09, C10, C03)
 
